@@ -193,6 +193,13 @@ theorem rename_outputs_exact (σ : Name → Name) (hσ : Function.Injective σ) 
       (asgs env q).map (List.map fun a => sortRow (renameRowKeys σ a.outs)) :=
   rows_renameOutputs hσ env q
 
+/-- When the output names of every row are distinct (every valid query): the rows of the renamed query
+are exactly the original rows with their keys renamed and re-sorted. -/
+theorem rename_outputs_eq (σ : Name → Name) (hσ : Function.Injective σ) (env : SpecEnv) (q : Query)
+    (rs : List Row) (h : rows env q = .ok rs) (hd : DistinctKeys rs) :
+    rows env (renameOutputs σ q) = .ok (rs.map fun r => sortRow (renameRowKeys σ r)) :=
+  rows_renameOutputs_eq hσ env q rs h hd
+
 /-- Renaming the tags (definitions and uses) with an injective `σ` changes nothing. -/
 theorem rename_tags (σ : Name → Name) (hσ : Function.Injective σ) (env : SpecEnv) (q : Query) :
     rows env (renameTags σ q) = rows env q :=
@@ -213,6 +220,14 @@ theorem reorder_siblings_props (env : SpecEnv) (q : Query) (p : Path) (j : Nat) 
     Forall₂ (fun r' r => r'.Perm r) rs' rs :=
   rows_swapProps env q p j f g hp hf hg hok rs rs' h h'
 
+/-- … hence, when the output names of every row are distinct, nothing changes at all. -/
+theorem reorder_siblings_props_eq (env : SpecEnv) (q : Query) (p : Path) (j : Nat) (f g : QField)
+    (hp : NoFoldPath p q.root) (hf : fieldAt p j q.root = some f)
+    (hg : fieldAt p (j + 1) q.root = some g) (hok : swapPropsOK f g = true)
+    (rs rs' : List Row) (h : rows env q = .ok rs) (h' : rows env (swapSiblings p j q) = .ok rs')
+    (hd : DistinctKeys rs) : rs' = rs :=
+  rows_swapProps_eq env q p j f g hp hf hg hok rs rs' h h' hd
+
 /-- Swapping two adjacent edge selections with no tag dependency between them (`swapEdgesOK`: neither
 reads a tag the other defines, and the tag and output names they define are different) permutes the
 rows: the swapped query's rows are a permutation of rows that agree, one by one and up to the order
@@ -224,6 +239,15 @@ theorem reorder_siblings_edges (env : SpecEnv) (q : Query) (p : Path) (j : Nat) 
     (rs rs' : List Row) (h : rows env q = .ok rs) (h' : rows env (swapSiblings p j q) = .ok rs') :
     ∃ rs'', rs'.Perm rs'' ∧ Forall₂ (fun r' r => r'.Perm r) rs'' rs :=
   rows_swapEdges env q p j E1 E2 hp hf hg hok rs rs' h h'
+
+/-- … hence, when the output names of every row are distinct, the two results are equal as multisets of
+rows. -/
+theorem reorder_siblings_edges_perm (env : SpecEnv) (q : Query) (p : Path) (j : Nat) (E1 E2 : QField)
+    (hp : NoFoldPath p q.root) (hf : fieldAt p j q.root = some E1)
+    (hg : fieldAt p (j + 1) q.root = some E2) (hok : swapEdgesOK E1 E2 = true)
+    (rs rs' : List Row) (h : rows env q = .ok rs) (h' : rows env (swapSiblings p j q) = .ok rs')
+    (hd : DistinctKeys rs) : rs'.Perm rs :=
+  rows_swapEdges_perm env q p j E1 E2 hp hf hg hok rs rs' h h' hd
 
 /-- In particular the number of rows does not change. -/
 theorem reorder_siblings_edges_length (env : SpecEnv) (q : Query) (p : Path) (j : Nat) (E1 E2 : QField)
@@ -374,9 +398,12 @@ end TF.C23
 #print axioms TF.C23.param_edge_as_filter
 #print axioms TF.C23.rename_outputs
 #print axioms TF.C23.rename_outputs_exact
+#print axioms TF.C23.rename_outputs_eq
 #print axioms TF.C23.rename_tags
 #print axioms TF.C23.reorder_siblings_props
+#print axioms TF.C23.reorder_siblings_props_eq
 #print axioms TF.C23.reorder_siblings_edges
+#print axioms TF.C23.reorder_siblings_edges_perm
 #print axioms TF.C23.reorder_siblings_edges_length
 #print axioms TF.C23.frame_property
 #print axioms TF.C23.Example.add_filter_in_fold_adds_row
